@@ -544,7 +544,10 @@ pub fn execute(plan: &ExPlan) -> ExRun {
 }
 
 /// Runs the plan and judges it against the reference model.
-/// Offsets of the terminal stream in front of which a paced terminal stalls for a second or more.
+/// Silence (accumulated) from which on a reader may legitimately give an exchange up.
+pub const STALL_MS: u64 = 200;
+
+/// Offsets of the terminal stream in front of which a paced terminal has been silent for STALL_MS or more in sum.
 /// The sequences have no timer, so a stall changes nothing - but a library that gives a started
 /// exchange up after some time of silence (an inter-character time-out, say) breaks no property
 /// either: at each such offset "one error, nothing more" is an acceptable second reading.
@@ -563,10 +566,15 @@ pub fn long_stall_offsets(plan: &ExPlan) -> Vec<u32> {
             starts.push(c);
         }
     }
+    // (what counts is the silence accumulated so far, not the single gap: a deadline over the whole
+    // acknowledgement - T3 - or over a packet expires where the sum crosses it; and the threshold is the
+    // specification's own inter-character time-out T1 = 200 ms, below which nobody may give up)
     let mut out = vec![];
+    let mut cum = 0u64;
     for (k, st) in starts.iter().enumerate() {
         let gap = plan.paced_gaps_ms.get(k).or(plan.paced_gaps_ms.last()).copied().unwrap_or(0);
-        if gap >= 1000 {
+        cum += gap as u64;
+        if cum >= STALL_MS && gap > 0 {
             out.push(*st as u32);
         }
     }
